@@ -107,7 +107,7 @@ func summarise(n datamodel.Node) string {
 // expectSummary is what the model says a match of node t must carry.
 func expectSummary(t *builtTree) string {
 	switch t.Kind {
-	case "f1", "fN", "fL", "fE", "fH1", "fR":
+	case "f1", "fN", "fL", "fE", "fH1", "fR", "fU":
 		return fmt.Sprintf("bytes:%x", t.Content)
 	case "sym":
 		return "map:{}"
